@@ -52,6 +52,8 @@ inductive XVal where
   | typ (name : Str) (params : List XVal)
   | talias (name : Str) (resolved : XVal)       -- a type alias used as a value
   | otype (name : Str) (ih : List OEntry)      -- an object type used as a value: its name ("" = anonymous) and its init hash
+  | otypeX (isDefault : Bool) (ih : List OEntry) -- … in a context with the property `expanded`: written expanded (unless it is the
+                                               -- default Object type), and a container
   | obj (name : Str) (es : List XEntry)
   | array (vs : List XVal) | hash (es : List XEntry)
 inductive XEntry where
@@ -73,10 +75,13 @@ def XVal.kind : XVal → XKind
   | .str _ => .str | .regexp _ => .regexp | .binary _ _ => .bin | .array _ => .arr | .hash _ => .hash
   | .semver _ => .semver | .semverRange _ _ => .semverRange | .uri _ => .uri | .tspan _ => .tspan | .tstamp _ => .tstamp
   | .sensitive _ => .sensitive | .typ _ _ => .typ | .obj _ _ => .obj | .talias _ _ => .talias | .otype _ _ => .otype
+  | .otypeX _ _ => .otype
 
-/-- `isContainer` (arraytype.go) in a context without the `expanded` property -/
+/-- `isContainer` (arraytype.go): Array, Hash, object instances — and, in a context with the property `expanded`, object types
+    (`otypeX`; the property itself is not a parameter of the model: a value formatted in such a context has `otypeX` wherever an
+    object type occurs outside the init hash of another one — inside, the property is switched off: "Avoid nested expansions") -/
 def XVal.isContainer : XVal → Bool
-  | .array _ | .hash _ | .obj _ _ => true
+  | .array _ | .hash _ | .obj _ _ | .otypeX _ _ => true
   | _ => false
 
 def Kind.x : Kind → XKind
@@ -248,6 +253,18 @@ def fmtX {κ : Type} (ks : KeySys κ) (io : FloatIO) (m : GMap κ) (ind : Ind) :
         if !name.isEmpty then .text name
         else
           -- basicTypeToString of an anonymous object type: indent2 / indent3 = Increase(alt) once / twice
+          let i2 := ind.increase t.f.alt
+          let i3 := i2.increase t.f.alt
+          (otypeEntries ks io m (cfOfG ks t) t.f i2 i3 true ih).bind fun s =>
+            .text ("Object[{".toList ++ s ++ (if t.f.alt then '\n' :: ind.padding else []) ++ "}]".toList)
+      typeFinish t.f [] body
+  | .otypeX isDefault ih =>
+    let t := getG ks m (.otypeX isDefault ih)
+    if !isTypeLetter t.f.letter then .reported .unsupported
+    else
+      let body : Res :=
+        if isDefault then .text "Object".toList
+        else
           let i2 := ind.increase t.f.alt
           let i3 := i2.increase t.f.alt
           (otypeEntries ks io m (cfOfG ks t) t.f i2 i3 true ih).bind fun s =>
